@@ -204,6 +204,26 @@ func init() {
 							sort.Strings(out)
 							return out, err
 						}
+						// sorted by the unique-indexed fields (name: non-nullable index, nick: nullable index, many nulls)
+						queryByUnique := func(st *schema.St) ([]string, error) {
+							var out []string
+							for _, text := range []string{"true sort by nick", "true sort by nick desc, name", "sort by name", "true sort by name desc limit none"} {
+								ids, n, err := st.Store.QueryIds(tx, text)
+								if err != nil {
+									return nil, fmt.Errorf("%s: %w", text, err)
+								}
+								if int(n) != len(ids) {
+									return nil, fmt.Errorf("%s: count %d != %d ids", text, n, len(ids))
+								}
+								sorted := append([]string{}, ids...)
+								sort.Strings(sorted)
+								if out != nil && !sameList(out, sorted) {
+									return sorted, fmt.Errorf("%s returned another id set than the previous sort: %q vs %q", text, sorted, out)
+								}
+								out = sorted
+							}
+							return out, nil
+						}
 						queryPaged := func(st *schema.St) ([]string, error) {
 							// two pages must concatenate to the full answer
 							a, n1, err := st.Store.QueryIds(tx, "true limit 2")
@@ -227,6 +247,7 @@ func init() {
 							{kmodel.Mgrs, "QueryIds(true)", mgrs, query}, {kmodel.Mgrs, "QueryIds()", mgrs, queryEmpty}, {kmodel.Mgrs, "IterateIds", mgrs, iter}, {kmodel.Mgrs, "IterateValidIds", mgrs, iterValid},
 							{kmodel.Emps, "QueryIds(sort by id desc)", all, queryDesc}, {kmodel.Mgrs, "QueryIds(sort by id desc)", mgrs, queryDesc}, {kmodel.Ctrs, "QueryIds(sort by id desc)", all, queryDesc},
 							{kmodel.Emps, "QueryIds(sort by title desc, grade)", all, querySorted}, {kmodel.Mgrs, "QueryIds(sort by title desc, grade)", mgrs, querySorted}, {kmodel.Ctrs, "QueryIds(sort by title desc, grade)", all, querySorted},
+							{kmodel.Emps, "QueryIds(sort by unique-indexed fields)", all, queryByUnique}, {kmodel.Mgrs, "QueryIds(sort by unique-indexed fields)", mgrs, queryByUnique}, {kmodel.Ctrs, "QueryIds(sort by unique-indexed fields)", all, queryByUnique},
 							{kmodel.Emps, "QueryIds(paged)", all, queryPaged}, {kmodel.Mgrs, "QueryIds(paged)", mgrs, queryPaged}, {kmodel.Ctrs, "QueryIds(paged)", all, queryPaged},
 							{kmodel.Ctrs, "QueryIds(true)", all, query}, {kmodel.Ctrs, "QueryIds()", all, queryEmpty}, {kmodel.Ctrs, "IterateIds", all, iter}, {kmodel.Ctrs, "IterateValidIds", ctrs, iterValid},
 						} {
